@@ -570,7 +570,13 @@ func raceU1(t *testing.T) (res raceResult) {
 	var wg sync.WaitGroup
 	wg.Add(2)
 	go func() { defer wg.Done(); ls[10].OnSuccess() }() // 11th sample closes the first window
-	c := <-st.parked                                    // its estimate (110) is on its way into the strategy
+	var c chan struct{}
+	select {
+	case c = <-st.parked: // its estimate (110) is on its way into the strategy
+	case <-time.After(5 * time.Second):
+		res.Failed, res.Detail = true, "a window closed (11 qualifying samples, period over) and the algorithm was updated, but the strategy's SetLimit was not called within 5 s"
+		return
+	}
 	go func() {
 		defer wg.Done()
 		time.Sleep(time.Millisecond)
@@ -1313,6 +1319,9 @@ func TestC19Races(t *testing.T) {
 	// a pool with a poll period recovers a wake-up lost in the window at its next poll
 	raceOnly = []string{"blocking:lost-wakeup:not-recovered-at-poll"}
 	runRaces(t, rep, raceF8poll)
+	// two holders complete at the same time: both tokens reach queued callers
+	raceOnly = []string{"queue:lost-handoff:overlapping-completions"}
+	runRaces(t, rep, raceQ2)
 }
 
 func TestC03Races(t *testing.T) {
